@@ -6,6 +6,7 @@ mod fam_attr;
 mod fam_msg;
 mod fam_mtype;
 mod fam_tcp;
+mod fam_xor;
 mod typed;
 mod util;
 
@@ -21,6 +22,7 @@ fn exec_line(lhs: &str) -> String {
             "mtype" => fam_mtype::exec(&kv),
             "attr" => fam_attr::exec(&kv),
             "msg" => fam_msg::exec(&kv),
+            "xor" => fam_xor::exec(&kv),
             _ => format!("unknown-family {fam}"),
         }
     });
@@ -36,6 +38,7 @@ fn gen(fam: &str, seed: u64, count: usize, thorough: bool, part: u64, parts: u64
     match fam {
         "tcp" => fam_tcp::gen(&mut rng, count, thorough, &mut out),
         "mtype" => fam_mtype::gen(&mut rng, count, thorough, &mut out, part, parts),
+        "xor" => fam_xor::gen(&mut rng, count, thorough, &mut out, part, parts),
         "attr" => fam_attr::gen(&mut rng, count, thorough, &mut out, part, parts),
         f if f.starts_with("msg.") => fam_msg::gen(f, &mut rng, count, thorough, &mut out, part, parts),
         _ => panic!("unknown family {fam}"),
